@@ -416,7 +416,7 @@ def witness(case: Dict[str, Any], job: Dict[str, Any], inv: str, inst: Tuple[Any
     jb = {k: job[k] for k in job if k not in ("root", "out")}
     cls = inst[-1] if inv != "PrivateMarked" else "none"
     return {"invariant": inv, "instance": instance, "facts": facts, "job": jb, "class": cls,
-            "key": "%s:%s:%s:%s" % (inv, prod or instance.get("trace", ""), cls, job["name"] if cls == "none" else "")}
+            "key": "%s:%s:%s:%s" % (inv, prod or instance.get("trace", ""), cls, job["kind"] if cls == "none" else "")}
 
 
 # ------------------------------------------------------------------------------------------------ TLC runs
